@@ -57,22 +57,26 @@ Drop(s, n)    == SubSeq(s, n + 1, Len(s))
 IsId(s) == Len(s) \in 1..64 /\ AllIn(s, IdChar)
 
 (* ------------------------------------------------------------ split/join *)
-RECURSIVE SplitAcc(_, _, _, _)
-SplitAcc(s, c, start, i) ==
-  IF i > Len(s) THEN <<SubSeq(s, start, Len(s))>>
-  ELSE IF Ch(s, i) = c THEN <<SubSeq(s, start, i - 1)>> \o SplitAcc(s, c, i + 1, i + 1)
-  ELSE SplitAcc(s, c, start, i + 1)
-Split(s, c) == SplitAcc(s, c, 1, 1)            \* Split("", c) = <<"">>
+(* Character loops are written as set comprehensions over positions, not as *)
+(* recursions: TLC evaluates a 250-level recursion some 50 times slower.    *)
+Positions(s, c, from) == {i \in from..Len(s) : Ch(s, i) = c}
+MinOf(P) == CHOOSE i \in P : \A j \in P : i <= j
+(* index of the first occurrence of c in s at or after position from, or 0 *)
+IndexFrom(s, c, from) == LET P == Positions(s, c, from) IN IF P = {} THEN 0 ELSE MinOf(P)
+
+Split(s, c) ==                                   \* Split("", c) = <<"">>
+  LET P == Positions(s, c, 1)
+      n == Cardinality(P)
+      pos == [k \in 1..n |-> CHOOSE i \in P : Cardinality({j \in P : j < i}) = k - 1]
+      lo(k) == IF k = 1 THEN 1 ELSE pos[k - 1] + 1
+      hi(k) == IF k = n + 1 THEN Len(s) ELSE pos[k] - 1
+  IN [k \in 1..(n + 1) |-> SubSeq(s, lo(k), hi(k))]
 
 RECURSIVE Join(_, _)
 Join(parts, sep) ==
   IF Len(parts) = 0 THEN ""
   ELSE IF Len(parts) = 1 THEN parts[1]
   ELSE parts[1] \o sep \o Join(Tail(parts), sep)
-
-(* index of the first occurrence of c in s at or after position i, or 0 *)
-RECURSIVE IndexFrom(_, _, _)
-IndexFrom(s, c, i) == IF i > Len(s) THEN 0 ELSE IF Ch(s, i) = c THEN i ELSE IndexFrom(s, c, i + 1)
 
 (* "Redundant slashes": an empty path segment other than the one in "://"  *)
 (* (a doubled, leading or trailing "/").  Both are defined on the segments  *)
